@@ -7,7 +7,8 @@ EXPLANATION = 'Mixed. P: util.metadata_from_many (legacy and footer-gathering pa
 def p_parts():
     from ._many import p_many
     from ._cats import p_cats
-    return [p_many, p_cats]
+    from ._generic import optional_parts
+    return [p_many, p_cats] + optional_parts(("_readoptions", "p_readoptions"))
 
 
 def run(ctx):
